@@ -162,6 +162,12 @@ func rule082(r *core.Run) {
 				if core.Reaches(m, cs) {
 					bad = sprintf("input is consumed (%s at %s) after stored state was already modified by %s at %s", r.P.CalleeName(cs), pos(r, cs), r.P.CalleeName(m.(ssa.CallInstruction)), pos(r, m))
 				}
+				// whatever the error is, a failed read does not go on to the mutation: assuming every nil
+				// test of the consumer's error says "non-nil", the mutation is unreachable from the consumer
+				// (`switch err { case nil, io.EOF: … }` lets one kind of failure through)
+				if assume := nonNilTestsOf(fn, core.ErrorResult(cs)); len(assume) > 0 && core.ReachableTrackingFlags(cs, m, assume, nil) {
+					bad = sprintf("%s at %s is reachable although %s (at %s) reported an error (some error value is treated as success)", r.P.CalleeName(m.(ssa.CallInstruction)), pos(r, m), r.P.CalleeName(cs), pos(r, cs))
+				}
 			}
 			if bad != "" {
 				break
@@ -635,4 +641,74 @@ func rule086(r *core.Run) {
 	if n == 0 {
 		r.Unresolved("R08.6: ReadAll has no success return")
 	}
+}
+
+// nonNilTestsOf collects the comparisons of the error value ev (or of a load
+// of the local it was stored in, before that local is assigned again) with
+// nil, mapped to the truth value that means "non-nil".
+func nonNilTestsOf(fn *ssa.Function, ev ssa.Value) map[ssa.Value]bool {
+	out := map[ssa.Value]bool{}
+	if ev == nil {
+		return out
+	}
+	// the cells ev is stored into
+	var stores []*ssa.Store
+	if refs := ev.Referrers(); refs != nil {
+		for _, u := range *refs {
+			if st, ok := u.(*ssa.Store); ok && st.Val == ev {
+				if _, isAlloc := st.Addr.(*ssa.Alloc); isAlloc {
+					stores = append(stores, st)
+				}
+			}
+		}
+	}
+	isSubject := func(v ssa.Value) bool {
+		if v == ev {
+			return true
+		}
+		ld, ok := v.(*ssa.UnOp)
+		if !ok || ld.Op != token.MUL {
+			return false
+		}
+		for _, s0 := range stores {
+			if ld.X != s0.Addr || !core.Reaches(s0, ld) {
+				continue
+			}
+			clobbered := false
+			if refs := s0.Addr.Referrers(); refs != nil {
+				for _, u := range *refs {
+					if s1, ok := u.(*ssa.Store); ok && s1 != s0 && s1.Addr == s0.Addr && core.Reaches(s0, s1) && core.Reaches(s1, ld) {
+						// a store of the value loaded back from the same cell changes nothing
+						if l2, isLd := s1.Val.(*ssa.UnOp); isLd && l2.Op == token.MUL && l2.X == s0.Addr {
+							continue
+						}
+						clobbered = true
+					}
+				}
+			}
+			if !clobbered {
+				return true
+			}
+		}
+		return false
+	}
+	core.Instrs(fn, func(in ssa.Instruction) {
+		b, ok := in.(*ssa.BinOp)
+		if !ok || (b.Op != token.EQL && b.Op != token.NEQ) {
+			return
+		}
+		var other ssa.Value
+		switch {
+		case core.IsNilConst(b.Y):
+			other = b.X
+		case core.IsNilConst(b.X):
+			other = b.Y
+		default:
+			return
+		}
+		if isSubject(other) {
+			out[b] = b.Op == token.NEQ
+		}
+	})
+	return out
 }
